@@ -571,6 +571,7 @@ func main() {
 	}
 	regs := load(filepath.Join(*repo, "pkg/registers"))
 	methods(regs, "registers")
+	freshness(regs, "registers", map[string]bool{"NumberToFieldValue": true, "CalculateRegisterFields": true}, map[string]bool{"Fields": true, "Raw": true})
 	tools := load(filepath.Join(*repo, "pkg/tools"))
 	assigns(tools, "tools", "ParseTXTRegs", "ests", 8)
 	assigns(tools, "tools", "readTXTStatus", "u64", 64)
@@ -589,7 +590,7 @@ func main() {
 
 	var b strings.Builder
 	b.WriteString("(* generated by tools/go2coq from " + *repo + " — do not edit *)\n")
-	b.WriteString("From Coq Require Import NArith List String.\nFrom CSS Require Import Lib.SymBits Lib.RegTypes.\nImport ListNotations.\nOpen Scope N_scope.\nOpen Scope string_scope.\n\n")
+	b.WriteString("From Coq Require Import NArith List String.\nFrom CSS Require Import Lib.SymBits Lib.RegTypes Lib.RegFresh.\nImport ListNotations.\nOpen Scope N_scope.\nOpen Scope string_scope.\n\n")
 	b.WriteString("Definition accessors : list accessor := [\n")
 	for i, a := range accessors {
 		sep := ";"
@@ -619,6 +620,7 @@ func main() {
 		b.WriteString("  " + coqStr(u) + sep + "\n")
 	}
 	b.WriteString("].\n")
+	emitFresh(&b)
 	if err := os.MkdirAll(filepath.Dir(*out), 0o755); err != nil {
 		fatal("%v", err)
 	}
@@ -632,7 +634,7 @@ func main() {
 		}
 		os.WriteFile(*listing, []byte(l.String()), 0o644)
 	}
-	fmt.Printf("go2coq: %d accessors, %d tables, %d untranslated\n", len(accessors), len(tables), len(untranslated))
+	fmt.Printf("go2coq: %d accessors, %d tables, %d result-origin summaries, %d untranslated\n", len(accessors), len(tables), len(allocFns), len(untranslated))
 	for _, u := range untranslated {
 		fmt.Println("  untranslated:", u)
 	}
